@@ -64,6 +64,20 @@ class _Emit(Client):
 
     def refine(self, test, state, ctx):
         pd, pa, guard, isnext, stored = state
+        if isinstance(test, ast.UnaryOp) and isinstance(test.op, ast.Not):
+            t_, f_ = self.refine(test.operand, state, ctx)
+            return f_, t_
+        # `if keys:` / `if len(keys) > 0:` where keys is the list an emission loop of this function walks: once something was
+        # emitted (an advance is owed) the list is known to be non-empty
+        nm = test.id if isinstance(test, ast.Name) else None
+        if nm is None and isinstance(test, ast.Compare) and len(test.ops) == 1 and isinstance(test.left, ast.Call) \
+                and src(test.left.func) == "len" and test.left.args and isinstance(test.left.args[0], ast.Name) \
+                and isinstance(test.ops[0], (ast.Gt, ast.NotEq)) and const_value(test.comparators[0]) == 0:
+            nm = test.left.args[0].id
+        if nm is not None and pa is not None:
+            walked = {n.iter.id for n in ast.walk(ctx.func.node) if isinstance(n, ast.For) and isinstance(n.iter, ast.Name)}
+            if nm in walked:
+                return (state,), ()
         if isinstance(test, ast.Compare) and len(test.ops) == 1:
             op, a, b = test.ops[0], test.left, test.comparators[0]
             if isinstance(op, ast.In) and self._is_cursor(a, ctx) and self._is_storage(b, ctx):
@@ -237,9 +251,11 @@ def r1_emit(prog, rep: Report):
     # flush iterates the stored keys in ascending order
     fl = prog.method(pb, "flush")
     loops = [n for n in walk_own(fl.node) if isinstance(n, ast.For)]
-    asc = len(loops) == 1 and isinstance(loops[0].iter, ast.Call) and src(loops[0].iter.func) == "sorted" \
-        and not any(k.arg == "reverse" and const_value(k.value) for k in loops[0].iter.keywords) \
-        and f"self.{bfp.storage}" in src(loops[0].iter)
+    from ..flow import Flow
+    it0 = Flow(fl.node).expand(loops[0].iter) if len(loops) == 1 else None      # keys = sorted(...); for k in keys
+    asc = len(loops) == 1 and isinstance(it0, ast.Call) and src(it0.func) == "sorted" \
+        and not any(k.arg == "reverse" and const_value(k.value) for k in it0.keywords) \
+        and f"self.{bfp.storage}" in src(it0)
     rep.check("C15.R1", fl, "flush:ascending", asc, "flush walks sorted(stored keys)",
               "flush does not iterate the stored serials in ascending order",
               scenario="p.print(3,'D'); p.print(2,'C'); p.flush() prints D before C")
@@ -374,7 +390,7 @@ def r4_ring(prog, rep: Report):
              "the guard dominates the subscript; put writes the slot at the write offset, then advances it, and grows the "
              "size only while size < capacity", floor=3)
     c = prog.cls("CircularBuffer", RING_MOD)
-    g = prog.method(c, "__getitem__")
+    g = prog.method_view(c, "__getitem__")
     rep.fn(g)
     i = g.params[1]
     size_field = None
@@ -416,7 +432,7 @@ def r4_ring(prog, rep: Report):
         except NotAFormula as ex:
             rep.unrec("C15.R4", g, "index-guard", f"guard is not a comparison formula over (i, 0, len): {ex}")
     # put
-    p = prog.method(c, "put")
+    p = prog.method_view(c, "put")
     rep.fn(p)
     e = p.params[1]
     off_field = None
@@ -437,41 +453,74 @@ def r4_ring(prog, rep: Report):
               f"slot at self.{off_field} written, then the offset advanced",
               "put does not write the slot at the write offset before advancing the offset",
               scenario="the newest item lands in the wrong slot: list(buffer) is not the tail of the put history")
-    grow = None
-    for st in stmts:
-        if isinstance(st, ast.If):
-            for sub in st.body:
-                if isinstance(sub, ast.AugAssign) and dotted(sub.target) == (p.self_name, size_field) \
-                        and isinstance(sub.op, ast.Add) and const_value(sub.value) == 1:
-                    grow = st
-    uncond = [st for st in stmts if isinstance(st, ast.AugAssign) and dotted(st.target) == (p.self_name, size_field)]
-    if grow is None:
-        rep.viol("C15.R4", p, "put:saturation", "the size is not incremented under a `size < capacity` guard"
-                 + (" (unconditional increment)" if uncond else ""),
-                 scenario="CircularBuffer(2): three puts give len 3 and b[2] reads a wrapped slot")
-    else:
-        def term2(x):
-            if dotted(x) == (p.self_name, size_field) or src(x) == f"len({p.self_name})":
-                return env["size"]
-            d = dotted(x)
-            if d and len(d) == 2 and d[0] == p.self_name:
-                return env["cap"]
-            if src(x) == f"len(self._buffer)":
-                return env["cap"]
-            return None
+    # saturation, decided on every path of put() for both orderings the invariant allows (size < capacity, size == capacity):
+    # the size grows by one in the first case and stays in the second
+    cap_fields = {dotted(n)[1] for n in ast.walk(p.node) if isinstance(n, ast.Attribute) and dotted(n) and len(dotted(n)) == 2
+                  and dotted(n)[0] == p.self_name and dotted(n)[1] not in (size_field, off_field)}
 
-        W = [w for w in weak_orderings(["size", "cap"]) if w["size"] <= w["cap"]]
-        try:
-            bad = []
-            for env in W:
-                if eval_order(grow.test, env, term2) != (env["size"] < env["cap"]):
-                    bad.append(env)
-            rep.count("orderings_evaluated", len(W))
-            rep.check("C15.R4", p, "put:saturation", not bad, f"size grows iff `{src(grow.test)}` == size < capacity",
-                      f"`{src(grow.test)}` is not `size < capacity` ({bad})",
-                      scenario="the size exceeds the capacity (or stops one short): len(buffer) != min(k, c)", line=grow.lineno)
-        except NotAFormula as ex:
-            rep.unrec("C15.R4", p, "put:saturation", f"growth guard not a comparison of size and capacity: {ex}")
+    class _Sat(Client):
+        """state = ('LT' | 'EQ', change of the size so far)"""
+        problems: List[str] = []
+
+        def should_inline(self_, func, call, ctx):
+            return func.cls is c
+
+        def _term(self_, env):
+            def term2(x):
+                if dotted(x) == (p.self_name, size_field) or src(x) == f"len({p.self_name})":
+                    return env["size"]
+                d = dotted(x)
+                if d and len(d) == 2 and d[0] == p.self_name and d[1] in cap_fields:
+                    return env["cap"]
+                if isinstance(x, ast.Call) and src(x.func) == "len" and x.args and dotted(x.args[0]) and dotted(x.args[0])[0] == p.self_name:
+                    return env["cap"]
+                return None
+            return term2
+
+        def refine(self_, test, state, ctx):
+            o, dlt = state
+            if dlt != 0:
+                return (state,), (state,)
+            env = {"size": 0, "cap": 1} if o == "LT" else {"size": 1, "cap": 1}
+            try:
+                r = eval_order(test, env, self_._term(env))
+            except NotAFormula:
+                return (state,), (state,)
+            return ((state,), ()) if r else ((), (state,))
+
+        def event(self_, kind, node, state, ctx):
+            o, dlt = state
+            if kind == "aug" and dotted(node.target) == (p.self_name, size_field):
+                cst = const_value(node.value)
+                if isinstance(cst, int) and isinstance(node.op, (ast.Add, ast.Sub)):
+                    return ((o, dlt + (cst if isinstance(node.op, ast.Add) else -cst)),)
+                self_.problems.append(src(node))
+            if kind == "store" and isinstance(node, ast.Attribute) and dotted(node) == (p.self_name, size_field):
+                v = assigned_value(node)
+                if isinstance(v, ast.Call) and src(v.func) == "min" and len(v.args) == 2:
+                    # min(size + 1, capacity): +1 below the capacity, unchanged at the capacity
+                    parts = [src(a) for a in v.args]
+                    if f"{p.self_name}.{size_field} + 1" in parts or f"1 + {p.self_name}.{size_field}" in parts:
+                        return ((o, dlt + (1 if o == "LT" else 0)),)
+                if isinstance(v, ast.BinOp) and isinstance(v.op, ast.Add) and dotted(v.left) == (p.self_name, size_field) and const_value(v.right) == 1:
+                    return ((o, dlt + 1),)
+                self_.problems.append(src(getattr(node, "_parent", node)))
+            return (state,)
+    from ..util import assigned_value
+    sat = _Sat()
+    sat.problems = []
+    it_ = Interp(prog, sat)
+    ex_ = it_.run(p, {("LT", 0), ("EQ", 0)}, c)
+    finals_ = ex_.normal | ex_.ret
+    rep.count("orderings_evaluated", 2)
+    if sat.problems or it_.unrecognised:
+        rep.unrec("C15.R4", p, "put:saturation", f"size update not recognised: {(sat.problems + it_.unrecognised)[:2]}")
+    else:
+        bad_ = sorted({st_ for st_ in finals_ if st_ != ("LT", 1) and st_ != ("EQ", 0)})
+        rep.check("C15.R4", p, "put:saturation", not bad_ and bool(finals_), "the size grows by one below the capacity and stays at the capacity, on every path",
+                  "put changes the size by " + ", ".join(f"{d_:+d} when size {'<' if o_ == 'LT' else '=='} capacity" for o_, d_ in bad_),
+                  scenario="CircularBuffer(2): three puts give len 3 and b[2] reads a wrapped slot (or the size stops one short: "
+                           "len(buffer) != min(k, c))")
 
 
 # ---------------------------------------------------------------------------------------------- R5
@@ -514,7 +563,7 @@ def r5_ring_slots(prog, rep: Report):
              "newest item is the last slot written and the oldest is `size` writes back); a guarded alternative read is not decided",
              floor=2)
     c = prog.cls("CircularBuffer", RING_MOD)
-    g, p = prog.method(c, "__getitem__"), prog.method(c, "put")
+    g, p = prog.method_view(c, "__getitem__"), prog.method_view(c, "put")
     rep.fn(g, p)
     slots = _ring_slots_field(prog)
     # roles
